@@ -283,14 +283,23 @@ def stats_whole(cases, results):
     return d
 
 
+def oracle_ends(case, res):
+    if isinstance(res, Err) and res.name == "Timeout":
+        n = len(case[0]) if isinstance(case, tuple) else len(case)
+        return "the loop did not end on %d bytes of input within the time limit" % n
+    return None
+
+
 STREAMS = [
     {"name": "arsc-header", "gen": gen_arsc, "impl": impl_arsc, "coq_header": COQ_HEADER, "coq_type": "list Z * (Z * Z)",
      "coq_input": lambda c: "(%s, (%s, %s))" % (zlist(list(c[0])), z(c[1]), z(c[2])), "coq_obs": "obs_arsc", "model_vo": "Misc/TermModel.vo",
-     "pinned": False, "shard": 120},
+     "pinned": False, "shard": 120, "oracle": oracle_ends, "case_timeout": 10},
     {"name": "debug-info", "gen": gen_debug, "impl": impl_debug, "coq_header": COQ_HEADER, "coq_type": "list Z",
-     "coq_input": lambda c: zlist(list(c)), "coq_obs": "obs_debug", "model_vo": "Misc/TermModel.vo", "pinned": False, "shard": 120},
+     "coq_input": lambda c: zlist(list(c)), "coq_obs": "obs_debug", "model_vo": "Misc/TermModel.vo", "pinned": False, "shard": 120,
+     "oracle": oracle_ends, "case_timeout": 10},
     {"name": "hidden-api", "gen": gen_hidden, "impl": impl_hidden, "coq_header": COQ_HEADER, "coq_type": "list Z",
-     "coq_input": lambda c: zlist(list(c)), "coq_obs": "obs_hidden", "model_vo": "Misc/TermModel.vo", "pinned": False, "shard": 120},
+     "coq_input": lambda c: zlist(list(c)), "coq_obs": "obs_hidden", "model_vo": "Misc/TermModel.vo", "pinned": False, "shard": 120,
+     "oracle": oracle_ends, "case_timeout": 10},
     {"name": "whole-parsers", "gen": gen_whole, "impl": impl_whole, "pinned": False, "oracle": oracle_whole, "stats": stats_whole,
      "case_timeout": 30},
 ]
